@@ -171,6 +171,7 @@ class Merge:  # MERGE INTO tgt USING src ON pred WHEN MATCHED THEN UPDATE SET ..
     on: object
     upd: tuple   # ((tgt col, Col),...)
     ins: tuple   # ((tgt col, Col),...)
+    more: tuple = ()  # further WHEN clauses after the two above: (("upd" | "ins" | "del", condition | None, ((tgt col, expr),...)),...)
 @dataclass(frozen=True)
 class Noop:  # statement that moves no data
     text: str
@@ -283,6 +284,11 @@ def r_stmt(s) -> str:
         if s.upd: out += " WHEN MATCHED THEN UPDATE SET " + ", ".join(f"{c} = {r_expr(e)}" for c, e in s.upd)
         if s.ins: out += (" WHEN NOT MATCHED THEN INSERT (" + ", ".join(c for c, _ in s.ins) + ") VALUES (" +
                           ", ".join(r_expr(e) for _, e in s.ins) + ")")
+        for kind, cond, prs in s.more:
+            out += (" WHEN NOT MATCHED" if kind == "ins" else " WHEN MATCHED") + (f" AND {r_pred(cond)}" if cond is not None else "") + " THEN "
+            if kind == "ins": out += "INSERT (" + ", ".join(c for c, _ in prs) + ") VALUES (" + ", ".join(r_expr(e) for _, e in prs) + ")"
+            elif kind == "upd": out += "UPDATE SET " + ", ".join(f"{c} = {r_expr(e)}" for c, e in prs)
+            else: out += "DELETE"
         return out
     if isinstance(s, Noop): return s.text
     if isinstance(s, CreateLike): return f"CREATE TABLE {r_tname(s.tgt)} {s.kw} {r_tname(s.src)}"
@@ -449,6 +455,14 @@ def fmt_root(r):
     return f"{r[1]}?{'|'.join(r[2])}"
 
 def expected(stmt, md=None):
+    if isinstance(stmt, Merge) and stmt.more:
+        # every WHEN clause contributes its own assignments, evaluated in the scope of the USING source; the union is the statement's dataflow
+        import dataclasses
+        S, Tt, pairs = expected(dataclasses.replace(stmt, more=()), md)
+        for kind, cond, prs in stmt.more:
+            if kind != "del":
+                pairs = sorted(set(pairs) | set(expected(Merge(stmt.tgt, stmt.src, stmt.on, prs if kind == "upd" else (), prs if kind == "ins" else ()), md)[2]))
+        return S, Tt, pairs
     o = Oracle(md)
     env = {}
     tgt = None; cols = None; q = None
